@@ -88,6 +88,8 @@ def has_hessian(g):
 
 
 IDENT = {
+    "d2rminus": ("C05", "d2r_rminus(e) block i == d2r_expinv(e) block i * dr_expinv(e)"),
+    "sqnorm": ("C05", "d2r_rminus_squarednorm(e) == J' J + sum_k e_k H_k  (J = dr_rminus(e), H = d2r_rminus(e): chain rule for |.|^2 / 2)"),
     "d2rexp": ("C05", "d2r_exp(a) contracted with b == d/ds dr_exp(a + s b) from the defining series"),
     "d2rinv": ("C05", "d2r_expinv(a) contracted with b == -J^-1 (d/ds dr_exp(a + s b)) J^-1"),
     "exp": ("C02", "matrix(exp(a)) == sum hat(a)^k / k!"),
@@ -122,6 +124,25 @@ def witnesses(gs, names):
             elif nm == "drinv":
                 body = om("m1", "GT::Dof", "GT::Dof") + om("m2", "GT::Dof", "GT::Dof") + "  m1 = GT::dr_expinv(a);\n  m2 = GT::dr_exp(a);\n"
                 shp = ((g.dof, g.dof), (g.dof, g.dof))
+            elif nm in ("d2rminus", "sqnorm"):
+                if not has_hessian(g) or g.dof >= 8:
+                    continue          # for Dof >= 8 Eigen evaluates the block products with its run-time gemm kernel (outside the series domain)
+                if nm == "d2rminus":
+                    body = ("  constexpr int N = GT::Dof;\n  Eigen::Map<Eigen::Matrix<double, N, N * N>> m1(o1), m2(o2);\n"
+                            "  const typename GT::Tangent e = a;\n  m1 = smooth::d2r_rminus<GT>(e);\n"
+                            "  const Eigen::Matrix<double, N, N> J = smooth::dr_expinv<GT>(e);\n  const Eigen::Matrix<double, N, N * N> H = smooth::d2r_expinv<GT>(e);\n"
+                            "  for (int i = 0; i < N; ++i) for (int k = 0; k < N; ++k) for (int j = 0; j < N; ++j) {\n"
+                            "    double acc = 0; for (int m = 0; m < N; ++m) acc += H(k, N * i + m) * J(m, j);\n    m2(k, N * i + j) = acc;\n  }\n")
+                    shp = ((g.dof, g.dof * g.dof), (g.dof, g.dof * g.dof))
+                else:
+                    body = ("  constexpr int N = GT::Dof;\n" + om("m1", "N", "N") + om("m2", "N", "N")
+                            + "  const typename GT::Tangent e = a;\n  m1 = smooth::d2r_rminus_squarednorm<GT>(e);\n"
+                            "  const Eigen::Matrix<double, N, N> J = smooth::dr_rminus<GT>(e);\n  const Eigen::Matrix<double, N, N * N> H = smooth::d2r_rminus<GT>(e);\n"
+                            "  for (int r = 0; r < N; ++r) for (int c = 0; c < N; ++c) {\n"
+                            "    double acc = 0; for (int m = 0; m < N; ++m) acc += J(m, r) * J(m, c) + e(m) * H(r, N * m + c);\n    m2(r, c) = acc;\n  }\n")
+                    shp = ((g.dof, g.dof), (g.dof, g.dof))
+                W.add("ray_%s_%s" % (g.key, nm), sig, pre + body, g=g, name=nm, shape=shp)
+                continue
             elif nm in ("d2rexp", "d2rinv"):
                 if not has_hessian(g):
                     continue
@@ -182,7 +203,7 @@ def expected(nm, M1, M2, order):
         return M1, rays.power_sum(M2, lambda k: Fraction(1, factorial(k)), order)
     if nm == "drexp":
         return M1, rays.power_sum(M2, lambda k: Fraction((-1) ** k, factorial(k + 1)), order)
-    if nm == "logexp":
+    if nm in ("logexp", "d2rminus", "sqnorm"):
         return M1, M2
     if nm == "drinv":
         return rays.mat_mul(M1, M2), rays.mat_id(len(M1))
